@@ -100,6 +100,11 @@ func buildOverlay() (map[string][]byte, map[string]string, error) {
 			ov[dst2] = data
 			paths[dst2] = p
 		}
+		if strings.HasPrefix(rel, "cmd/go-critic-analysis/") {
+			dst2 := filepath.Join(repoDir, "cmd/gocritic-analysis", strings.TrimPrefix(rel, "cmd/go-critic-analysis/"))
+			ov[dst2] = data
+			paths[dst2] = p
+		}
 		return nil
 	})
 	if err == nil {
